@@ -3,6 +3,7 @@ mod arr;
 mod c01;
 mod c03;
 mod c06;
+mod c15;
 mod c16;
 mod c17;
 mod c18;
@@ -30,7 +31,7 @@ fn exec_line(ctx: &mut Ctx, line: &str) -> String {
     let prop = toks.next().unwrap_or("");
     let second = toks.next().unwrap_or("");
     match prop {
-        "c01" | "c04" | "c06" | "c16" | "c17" => {
+        "c01" | "c04" | "c06" | "c15" | "c16" | "c17" => {
             let (v, m) = parse_line(line);
             if second == "cfg" {
                 ctx.arr = None;
@@ -46,6 +47,7 @@ fn exec_line(ctx: &mut Ctx, line: &str) -> String {
                 match ctx.arr.as_mut() {
                     Some(c) => if prop == "c06" { c06::exec_op(c, &mut ctx.c06, &verb, &m, &dtype) }
                         else if prop == "c17" { c17::exec_op(c, &mut ctx.c06, &verb, &m, &dtype) }
+                        else if prop == "c15" { c15::exec_op(c, &verb, &m) }
                         else if prop == "c16" { c16::exec_op(c, &mut ctx.c06, &mut ctx.c16, &verb, &m, line, &dtype) }
                         else { arr::exec_op(c, &verb, &m) },
                     None => "skip".into(),
@@ -98,6 +100,7 @@ fn main() {
                 "c03" => c03::generate(&a.tier, a.seed),
                 "c04" => c01::generate_c04(&a.tier, a.seed),
                 "c06" => c06::generate(&a.tier, a.seed),
+                "c15" => c15::generate(&a.tier, a.seed),
                 "c16" => c16::generate(&a.tier, a.seed),
                 "c17" => c17::generate(&a.tier, a.seed),
                 "c19" => c19::generate(&a.tier, a.seed),
@@ -136,11 +139,40 @@ fn main() {
         Some(f) => Box::new(std::io::BufWriter::new(std::fs::File::create(f).unwrap())),
         None => Box::new(std::io::BufWriter::new(std::io::stdout())),
     };
+    // isolation: run every case block in a child process (allocation failures inside external codecs abort the process)
+    if argv.iter().any(|x| x == "--isolate") || (argv[0] == "run" && a.rest.first().map(|p| p == "c15").unwrap_or(false)) {
+        let exe = std::env::current_exe().unwrap();
+        let base = std::env::var("VERIF_WORK").unwrap_or_else(|_| "/verif/work".into());
+        std::fs::create_dir_all(&base).ok();
+        let mut blocks: Vec<Vec<String>> = vec![];
+        for l in &lines {
+            let second = l.split_whitespace().nth(1).unwrap_or("");
+            if second == "cfg" || blocks.is_empty() || !(second == "op") { blocks.push(vec![l.clone()]); } else { blocks.last_mut().unwrap().push(l.clone()); }
+        }
+        for (bi, b) in blocks.iter().enumerate() {
+            let inp = format!("{}/iso_{}_{}.in", base, std::process::id(), bi);
+            let outp = format!("{}/iso_{}_{}.out", base, std::process::id(), bi);
+            std::fs::write(&inp, b.join("\n") + "\n").unwrap();
+            let st = std::process::Command::new(&exe).args(["replay", &inp, "--out", &outp, "--no-isolate"]).stderr(std::process::Stdio::null()).status();
+            let done: Vec<String> = std::fs::read_to_string(&outp).unwrap_or_default().lines().map(|s| s.to_string()).collect();
+            let ok = st.map(|s| s.success()).unwrap_or(false);
+            for (i, l) in b.iter().enumerate() {
+                if i < done.len() { writeln!(w, "{}", done[i]).unwrap(); }
+                else if i == done.len() && !ok { writeln!(w, "{} -> abort", l).unwrap(); }
+                else { writeln!(w, "{} -> skip", l).unwrap(); }
+            }
+            let _ = std::fs::remove_file(&inp); let _ = std::fs::remove_file(&outp);
+        }
+        w.flush().unwrap();
+        return;
+    }
+    let no_isolate = argv.iter().any(|x| x == "--no-isolate");
     let mut ctx = Ctx::default();
     for l in &lines {
         if l.starts_with('#') { writeln!(w, "{}", l).unwrap(); continue; }
         let o = exec_line(&mut ctx, l);
         writeln!(w, "{} -> {}", l, o).unwrap();
+        if no_isolate { w.flush().unwrap(); }
     }
     w.flush().unwrap();
 }
